@@ -499,6 +499,7 @@ func runRange(c *lib.Ctx, cs caseT) {
 	must(0, err)
 	eq := must(a.Equals(ctx, b))
 	ir := sql.IntersectRanges(ctx, a, b)
+	ir4 := sql.IntersectRanges(ctx, sql.MySQLRange{}, b, nil, a, b)
 	c.Count("kind_range")
 	c.Count(fmt.Sprintf("range_%dcol", len(at)))
 	switch {
@@ -517,7 +518,7 @@ func runRange(c *lib.Ctx, cs caseT) {
 	}
 	term := fmt.Sprintf("CRange %s %s %s", coqRange(at), coqRange(bt), lib.CoqTuple(
 		coqRange(rangeOf(inter)), coqOptRange(merged, mergeOk), lib.CoqBool(subset), lib.CoqBool(ovl), cmpS,
-		lib.CoqTuple(coqRanges(rangesOf(ro)), lib.CoqBool(roOk)), lib.CoqBool(eq), coqOptRange(ir, ir != nil)))
+		lib.CoqTuple(coqRanges(rangesOf(ro)), lib.CoqBool(roOk)), lib.CoqBool(eq), coqOptRange(ir, ir != nil), coqOptRange(ir4, ir4 != nil)))
 	id := c.Case(term, cs, fmt.Sprint("range", at, bt))
 	if len(at) != len(bt) {
 		return
@@ -525,6 +526,9 @@ func runRange(c *lib.Ctx, cs caseT) {
 	c.PredChecked()
 	fail := func(sig, what string) { c.PredFail(id, sig, fmt.Sprintf("a=%v b=%v: %s", a, b, what), cs) }
 	ncol := len(at)
+	if ir == nil || ir4 == nil {
+		fail("intersect-ranges/nil-for-equal-length-arguments", "IntersectRanges returned nil for arguments of equal non-zero length")
+	}
 	wf := !anyDegenerate([]rangeT{at, bt})
 	interT, mergedT := rangeOf(inter), rangeOf(merged)
 	for _, t := range allTuples(ncol) {
@@ -543,6 +547,11 @@ func runRange(c *lib.Ctx, cs caseT) {
 		}
 		if !ovl && inA && inB {
 			fail("range/overlaps-false-but-common-point", "Overlaps is false but both contain "+ptStr(t))
+			break
+		}
+		if ir4 != nil && rangeHas(rangeOf(ir4), t) != (inA && inB) {
+			fail(fmt.Sprintf("intersect-ranges/result-of-intersect-discarded/%dcol", ncol),
+				"IntersectRanges(nil,b,nil,a,b) = "+ir4.String()+" differs from a∩b at "+ptStr(t))
 			break
 		}
 		if ir != nil && rangeHas(rangeOf(ir), t) != (inA && inB) {
@@ -614,9 +623,10 @@ var corpus = []caseT{
 	// RemoveOverlappingRanges never finishes when a column is degenerate (lower = upper) or inverted
 	{Kind: "ror", Rs: []rangeT{{{9, 9}, {3, 12}}, {{3, 12}, {7, 10}}}},
 	{Kind: "ror", Rs: []rangeT{{{11, 9}, {3, 12}}, {{3, 12}, {7, 10}}}},
-	// IntersectRanges drops the intersection and returns its first argument
+	// IntersectRanges once dropped the intersection and returned its first argument (fixed in e18cb9b30; kept as regression inputs)
 	{Kind: "range", Rs: []rangeT{{{3, 12}}, {{7, 2}}}},
 	{Kind: "range", Rs: []rangeT{{{3, 8}, {0, 2}}, {{5, 12}, {1, 2}}}},
+	{Kind: "range", Rs: []rangeT{{{3, 12}, {0, 2}, {8, 2}}, {{3, 12}, {9, 12}, {8, 2}}}},
 	// plain shapes
 	{Kind: "cut", Cuts: []int{4, 5}},
 	{Kind: "col", Cols: []colT{{3, 12}, {6, 7}}},
